@@ -217,6 +217,7 @@ def explore_c15(rng, tier, res, deep=False):
     overlapping_applications(rng, tier, res)
     long_invalid_history(rng, tier, res)
     api_glue(rng, tier, res, g)
+    large_results(tier, res)
 
 
 def overlapping_applications(rng, tier, res):
@@ -261,6 +262,41 @@ def overlapping_applications(rng, tier, res):
 ALMOST_VALID = ["$[?@.a == (@.b)]", "$[?(@.a) == 1]", "$[?(@.a) < (@.b)]", "$[?1 == (@.a)]", "$[?@.a == 1 && (@.b) != 2]", "$[?!@.a == 1]", "$[?@.a == !@.b]",
                 "$[?@.a >= (1)]", "$[?(@.a || @.b) == true]", "$[?@.a == 1 == 1]", "$[?@.a != (@.*)]", "$[?@.* == 1]", "$[?count(@.a)]", "$[?length(@.*) == 1]",
                 "$[?nope(@)]", "$[?true]", "$[?@.a == 01]", "$[9007199254740992]", "$[", "$.a b", "$ ", " $", "$[?@.a &&]", "$[?match(@.a)]", "$['\\x']", "$[1:2:3:4]"]
+
+
+def large_results(tier, res):
+    """find() is the list of finditer() also when the list is LONG: results of 65 537, 100 001 and 1 000 001 nodes (one wide
+    array, a descendant walk, a filter keeping everything), through the module functions, an environment and a compiled
+    query — same length, same first / last / middle node, find_one the first."""
+    import jsonpath_rfc9535 as jp
+
+    env = jp.JSONPathEnvironment()
+    sizes_ = [65_537] + ([1_000_001] if tier != "thorough" else [100_001, 1_000_001, 2_000_003])
+    for n in sizes_:
+        arr = list(range(n))
+        cases = [("$[*]", arr, n)] if n > 200_000 else [("$[*]", arr, n), ("$[?@ >= 0]", arr, n), ("$..*", [arr[: n // 2], arr[n // 2:]], n + 2), ("$[::1]", arr, n)]
+        for q, doc, want in cases:
+            res.evaluations += 1
+            c = env.compile(q)
+            outs = {}
+            points = (("module.find", lambda: jp.find(q, doc)), ("env.find", lambda: env.find(q, doc)), ("compiled.find", lambda: c.find(doc)),
+                      ("list(compiled.finditer)", lambda: list(c.finditer(doc))), ("list(module.finditer)", lambda: list(jp.finditer(q, doc))))
+            for nm, fn in (points if n <= 200_000 else (points[0], points[3])):
+                r = None
+                try:
+                    r = fn()
+                    outs[nm] = (len(r), r[0].location, r[-1].location, r[len(r) // 2].value if not isinstance(r[len(r) // 2].value, list) else "list")
+                except Exception as exc:  # noqa: BLE001
+                    outs[nm] = "raised " + type(exc).__name__
+                del r
+            first = c.find_one(doc)
+            vals = set(map(str, outs.values()))
+            if len(vals) != 1 or not isinstance(outs["module.find"], tuple) or outs["module.find"][0] != want or first is None or first.location != outs["module.find"][1]:
+                res.violations.append({"property": "C15", "query": q, "document": f"an array of the integers 0..{n - 1}" + (" split in two halves" if q == "$..*" else ""),
+                                       "observed": {k: str(v) for k, v in outs.items()}, "expected": f"{want} nodes from every entry point",
+                                       "what": "entry points disagree (or lose nodes) on a large result"})
+                return
+    res.count("large-results", len(sizes_))
 
 
 def api_glue(rng, tier, res, g):
@@ -688,6 +724,7 @@ def explore_c14(rng, tier, res, deep=False):
         pending.append(("hist\t(ops " + " ".join(ops_wire) + ")", outs_real, hist, details))
     shared_substructure(rng, tier, res)
     conflated_twins_history(res)
+    deep_texts_history(res)
     subclass_alongside(rng, tier, res)
     typed_call_twins(rng, tier, res)
     reregister_between_applications(rng, tier, res)
@@ -719,6 +756,46 @@ def explore_c14(rng, tier, res, deep=False):
                         res.violations.append({"property": "C14", "query": q, "document": snap, "env": desc, "observed": got_nodes[:300], "expected": want_nodes[:300],
                                                "history": [str(h)[:120] for h in hist[: idx + 1]][-10:],
                                                "what": "after this history the real code returns, for this query and value, a nodelist that is not the RFC 9535 nodelist (the model of a history-free evaluation and the oracle agree with each other)"})
+
+
+def deep_texts_history(res):
+    """Compiling the same text again gives the same outcome whatever was compiled in between — also DEEPLY nested texts
+    (parentheses, nested filters, nested calls; 40 .. 160 levels), compiled in rising and falling order on one long-lived
+    environment and through the module functions: each outcome class equals the first one for that text and a fresh
+    environment's."""
+    import jsonpath_rfc9535 as jp
+
+    def texts(d):
+        return ["$[?" + "(" * d + "@.a" + ")" * d + "]", "$" + "[?@" * d + "]" * d, "$[?" + "!(" * (d // 2) + "@.a" + ")" * (d // 2) + "]",
+                "$[?length(" + "value(" * (d // 2) + "@.a" + ")" * (d // 2) + ") == 1]"]
+
+    def cls(fn):
+        try:
+            fn()
+            return "ok"
+        except jp.JSONPathError as exc:
+            return type(exc).__name__
+        except RecursionError:
+            return "PY:RecursionError"
+        except Exception as exc:  # noqa: BLE001
+            return "PY:" + type(exc).__name__
+
+    env = jp.JSONPathEnvironment()
+    first = {}
+    depths = [40, 98, 100, 101, 110, 140]
+    order = depths + depths[::-1] + [98, 140, 99, 98]
+    for step, d in enumerate(order):
+        for t in texts(d):
+            res.evaluations += 1
+            got = cls(lambda: env.compile(t)) if step % 2 == 0 else cls(lambda: jp.compile(t))
+            fresh = cls(lambda: jp.JSONPathEnvironment().compile(t))
+            want = first.setdefault(t, got)
+            if got != want or got != fresh:
+                res.violations.append({"property": "C14", "query": t[:60] + f"... ({d} levels, {len(t)} characters)", "observed": got, "expected": want if got != want else fresh,
+                                       "history": f"one environment and the module functions compiled texts nested {order[:step]} levels deep before this one",
+                                       "what": "the outcome of compiling a text depends on which (deeper) texts were compiled before: it differs from the first outcome for the same text / from a fresh environment's"})
+                return
+    res.count("deep-texts-history", len(order))
 
 
 def conflated_twins_history(res):
@@ -1180,6 +1257,7 @@ def explore_c16(rng, tier, res, deep=False):
                     break
         res.sample({"queries": [q for _c, _d, q in specs], "counts": counts})
     nd_iterators(rng, tier, res)
+    slices_over_different_lengths(res)
     thread_stress(rng, tier, res)
 
 
@@ -1250,6 +1328,74 @@ def nd_iterators(rng, tier, res):
                                            "history": f"nondeterministic environment; one compiled query; two iterators ({mode})",
                                            "what": "an iterator of a nondeterministic environment did not yield exactly the nodes of its own value's result when another iterator of the same query was alive"})
     res.count("nd-iterator-rounds", 8 * 5 * 4)
+
+
+def slices_over_different_lengths(res):
+    """Several live iterators of ONE compiled query with slice selectors, over arrays of DIFFERENT lengths (the bounds of a
+    slice are those of the array it is applied to), advanced round-robin, one-ahead and reversed: each yields its solitary
+    sequence."""
+    import jsonpath_rfc9535 as jp
+
+    env = jp.JSONPathEnvironment()
+    arrays = [list(range(6)), [10, 11, 12], ["a", "b", "c", "d", "e"], [], [7], list(range(20, 29))]
+    docs2 = [{"rows": [[1, 2, 3, 4, 5], [6]]}, {"rows": [[1, 2], [3, 4, 5, 6, 7, 8]]}]
+    for q in ("$[1:]", "$[-2:]", "$[:4]", "$[::-1]", "$[1::2]", "$[-4:-1]", "$[5:1:-2]", "$[:]", "$[2:99]", "$[0,1:,-1]"):
+        c = env.compile(q)
+        solo = [enc_list(c.find(a)).split(" ") for a in arrays]
+        for picks in ((0, 1), (1, 0), (2, 1, 0), (0, 3, 4, 5), (5, 2, 0, 1)):
+            for mode in ("round-robin", "first-runs-ahead", "reverse-start"):
+                its = [iter(c.finditer(arrays[i])) for i in (picks if mode != "reverse-start" else picks[::-1])]
+                idx = list(picks if mode != "reverse-start" else picks[::-1])
+                got = [[] for _ in its]
+                live = set(range(len(its)))
+                turn = 0
+                problem = None
+                while live and problem is None:
+                    for k in sorted(live):
+                        reps = 2 if (mode == "first-runs-ahead" and k == 0) else 1
+                        for _ in range(reps):
+                            try:
+                                n = next(its[k])
+                                got[k].append(enc_list([n]))
+                            except StopIteration:
+                                live.discard(k)
+                                break
+                            except Exception as exc:  # noqa: BLE001
+                                problem = f"iterator over array #{idx[k]} raised {type(exc).__name__}: {exc}"
+                                live.discard(k)
+                                break
+                    turn += 1
+                res.evaluations += 1
+                for k, i in enumerate(idx):
+                    want = [x for x in solo[i] if x]
+                    if problem is None and got[k] != want:
+                        problem = f"iterator over array #{i} yielded {got[k][:8]} instead of {want[:8]}"
+                if problem:
+                    res.violations.append({"property": "C16", "query": q, "document": [arrays[i] for i in idx], "observed": problem,
+                                           "expected": "each iterator yields the sequence of a solitary run over its own array",
+                                           "history": f"{len(idx)} live iterators of one compiled query, one per array shown, advanced {mode}",
+                                           "what": "live iterators of one compiled query over arrays of different lengths interfere"})
+                    return
+    for q in ("$.rows[*][:4]", "$.rows[*][1:]", "$..[-2:]"):
+        c = env.compile(q)
+        solo = [enc_list(c.find(d)).split(" ") for d in docs2]
+        its = [iter(c.finditer(d)) for d in docs2]
+        got = [[], []]
+        for _ in range(12):
+            for k in (0, 1):
+                try:
+                    got[k].append(enc_list([next(its[k])]))
+                except StopIteration:
+                    pass
+                except Exception as exc:  # noqa: BLE001
+                    got[k].append("raised " + type(exc).__name__)
+        res.evaluations += 1
+        if [g for g in got] != [[x for x in s_ if x] for s_ in solo]:
+            res.violations.append({"property": "C16", "query": q, "document": docs2, "observed": str(got)[:300], "expected": str(solo)[:300],
+                                   "history": "two live iterators of one compiled query, one per document shown, advanced alternately",
+                                   "what": "live iterators of one compiled query over arrays of different lengths interfere"})
+            return
+    res.count("slices-over-different-lengths")
 
 
 def nd_threads(res):
